@@ -77,6 +77,12 @@ ASSUMPTIONS = ["POSIX rename() is atomic and data handed to write() before a cra
                "write fail; as for errno faults, the bytes of a buffered chunk whose kernel write raises are dropped",
                "the statement speaks of the target path only: no verdict on what the OTHER names of a hard-linked target, or the file a symbolic-link target pointed to, hold afterwards "
                "(they are set up by the harness, are not counted as left-behind files, and the target is always read the way a reader would: through the path, following links)",
+               "one operation at a time per target, and the directory holds no OTHER application state under the operation's own temporary name: the statement quantifies over the crash "
+               "points of one save, not over concurrent savers or over other saves' targets. Persistent's scratch name is fixed (<final>-2 / <name>[-<tag>]-2.<ext>) and opened with plain "
+               "open(..., 'wb'): (i) an untagged save() uses <name>-2.<ext>, which is also the final name of save(tag='2') - that file is consumed by every untagged save, crash or no crash "
+               "(it IS the save's temporary; its own target <name>.<ext> stays old-or-new); (ii) two processes saving the same name at once share one scratch file and can publish a mixture "
+               "without any crash. Both were examined (round 6) and are outside the statement - a naming / mutual-exclusion matter, not crash atomicity; tags are drawn from names that are "
+               "not another form's scratch name, and the harness runs one saver. FilePath.setContent is not affected (random sibling name, O_EXCL)",
                "no verdict on whether an operation SUCCEEDS for a target name within 40 bytes of NAME_MAX (it may refuse with OSError because its temporary name does not fit) - only old-or-new is demanded "
                "of a refusal; for every other name a fault-free operation must succeed. The errno is injected at the interposer, the real directory stays writable (the harness runs as root, so mode "
                "bits cannot produce EACCES for real)"]
